@@ -608,9 +608,12 @@ def correspond(ctx):
 
 # ------------------------------------------------------------------------------ search (oracle from the statement)
 
-def _check_config(n, degree, io, bias, X):
-    """Compare ExtendedFeatures with PolynomialFeatures on matrix X; returns [(key, what, observed, required)]."""
+def _check_config(n, degree, io, bias, X, flag="bool"):
+    """Compare ExtendedFeatures with PolynomialFeatures on matrix X; returns [(key, what, observed, required)].
+    `flag`: how the two boolean options are passed (Python bool, numpy.bool_ as a parameter grid built from an
+    array yields, or 0/1)."""
     import numpy
+    conv = {"bool": bool, "numpy": numpy.bool_, "int": int}[flag]
     from mlinsights.mlmodel.extended_features import ExtendedFeatures
     from sklearn.preprocessing import PolynomialFeatures
     bad = []
@@ -618,7 +621,7 @@ def _check_config(n, degree, io, bias, X):
     ref = numpy.asarray(pf.fit_transform(X))
     for kind in ("poly", "poly-slow"):
         site = "ExtendedFeatures[%s,%s]" % (kind, "interaction_only" if io else "all")
-        ext = ExtendedFeatures(kind=kind, poly_degree=degree, poly_interaction_only=io, poly_include_bias=bias)
+        ext = ExtendedFeatures(kind=kind, poly_degree=degree, poly_interaction_only=conv(io), poly_include_bias=conv(bias))
         try:
             out = numpy.asarray(ext.fit(X).transform(X))
         except Exception as e:
@@ -668,6 +671,18 @@ def _check_refit(n, kind, c1, c2, X):
         return [(site + ":raises", "refit after set_params raises", "%s: %s" % (type(e).__name__, str(e)[:120]),
                  "the features of the new configuration")]
     bad = []
+    # a result already returned must not change when transform is called again on another batch of the same shape
+    try:
+        X2 = X + 1
+        first = numpy.asarray(ext.transform(X))
+        keep = first.copy()
+        ext.transform(X2)
+        if not numpy.array_equal(first, keep):
+            bad.append(("ExtendedFeatures[%s]:earlier-result-overwritten" % kind,
+                        "the matrix returned by transform changes when transform is called again",
+                        first.tolist(), keep.tolist()))
+    except Exception:  # noqa: BLE001
+        pass
     if ext.n_output_features_ != ref.shape[1]:
         bad.append((site + ":n_output_features_", "n_output_features_ after a refit is not the number of columns",
                     int(ext.n_output_features_), int(ref.shape[1])))
@@ -705,7 +720,8 @@ def search(ctx, hints):
         for kind in ("int", "float"):
             rows = rng.randint(1, 3)
             X = _matrix(rng, n, rows, kind)
-            bad = _check_config(n, degree, io, bias, X)
+            flag = ("bool", "numpy", "int")[(n + degree + (kind == "float")) % 3]
+            bad = _check_config(n, degree, io, bias, X, flag)
             evals += 1
             if n >= 2 and degree >= 2:
                 nontriv.add((n, degree, io, bias, kind))
@@ -713,7 +729,7 @@ def search(ctx, hints):
                 samples.append({"n": n, "degree": degree, "interaction_only": io, "include_bias": bias,
                                 "X": X.tolist()})
             for key, what, obs, req in bad:
-                vs.append(Violation(key, what, {"n": n, "degree": degree, "interaction_only": io,
+                vs.append(Violation(key, what, {"n": n, "degree": degree, "interaction_only": io, "flag": flag,
                                                 "include_bias": bias, "X": X.tolist(), "dtype": kind}, obs, req))
     # histories: the SAME instance refitted after set_params (every configuration is reached through fit)
     for t in range(ctx.pick(40, 400)):
@@ -750,7 +766,8 @@ def replay(ctx, item):
         bad = _check_refit(inp["n"], inp["kind"], tuple(inp["refit_from"]),
                            (inp["degree"], inp["interaction_only"], inp["include_bias"]), X)
     else:
-        bad = _check_config(inp["n"], inp["degree"], inp["interaction_only"], inp["include_bias"], X)
+        bad = _check_config(inp["n"], inp["degree"], inp["interaction_only"], inp["include_bias"], X,
+                            inp.get("flag", "bool"))
     best = {}
     for key, what, obs, req in bad:
         best.setdefault(key, Violation(key, what, inp, obs, req))
